@@ -28,7 +28,7 @@ CLAIMED["C06"] = ("Proof (deductive, all inputs): the NAS COUNT type is verified
   "NASEncrypt/NASMacCalculate are used through their contracts, which are themselves proved under C07.",
   "DESIGN.md §4 C06")
 CLAIMED["C10"] = ("Proof (deductive, all inputs): tglib.NASDecode is proved against the statement: header types 0..4, DL COUNT estimate (overflow incremented on SQN wrap, reset by new-context headers), "
-  "body handed to the plain decoder is the received body deciphered with DIRECTION=downlink only under header types 2/4; lemma: the estimate equals the AMF's COUNT whenever it is at most 255 ahead.",
+  "body handed to the plain decoder is the received body deciphered with DIRECTION=downlink only under header types 2/4; lemma: the estimate equals the AMF's COUNT whenever it is at most 255 ahead. tglib.GetNasPdu (locate the NAS-PDU IE) is proved for IE lists of 3, 4 and 6 entries with the NAS-PDU anywhere: NASDecode receives the octets of the first IE with id 38 and their octet 2 as security header type; nil when there is none.",
   "Trusted: govc, go/ssa, SMT solvers; the plain NAS decoder is abstract (ghost log of the bytes it is given). MAC verification result is not part of the claim (the code only logs a mismatch).",
   "DESIGN.md §4 C10")
 CLAIMED["C15"] = ("Proof (deductive, all K/OP/RAND/SQN/AMF): milenageF1, milenageF2345, GenerateOPC, MilenageGenerate, Milenage_check, Milenage_auts and os_memcmp equal the TS 35.206 / TS 33.102 formulas "
@@ -100,7 +100,7 @@ CLAIMED["C20"] = ("Whole-program frame analysis (structural obligations on go/ss
   "DESIGN.md §4 C20")
 
 CLAIMED["C13"] = ("Proof (deductive, all arguments) of the value graph built by the 8 NGAP builders on the emulator's path (NGSetupRequest, InitialUEMessage, UplinkNASTransport, InitialContextSetupResponse x2, PDUSessionResourceSetupResponse, PDUSessionResourceReleaseResponse, UEContextReleaseComplete): "
-  "message class, procedure code, criticality, the IE ids and criticalities of TS 38.413 clause 9.2 (constants transcribed in /verif/spec/ngap38413, not read from the library), each caller-supplied identifier, NAS-PDU and PDU session id at its place, every PLMN field = the PLMN announced at NG Setup; out-of-range INTEGERs are refused by appendInteger (proved, C03). "
+  "message class, procedure code, criticality, the IE ids and criticalities of TS 38.413 clause 9.2 (constants transcribed in /verif/spec/ngap38413, not read from the library), each caller-supplied identifier, NAS-PDU and PDU session id at its place, every PLMN field = the PLMN announced at NG Setup; out-of-range INTEGERs are refused by appendInteger (proved, C03). The 8 build-and-encode wrappers are proved (builder executed in line) to hand ngap.Encoder the message of the procedure they are named after with their own arguments at their places (call-site obligations P:call:Encoder.hands). "
   "BOUNDED stand-in (labelled bounded): the octets returned by the 8 build-and-encode wrappers of the emulator's procedures, parsed by an independent TS 38.413/X.691 walker, carry exactly those values over boundary identifiers and NAS lengths, and identifiers just outside their ranges are refused; for the 6 other wrappers of tglib (handover, path switch, paging, release request) the walker finds the message class, the procedure code and the caller's two UE identifiers.",
   "NOT covered: the other 44 builders of the library (not on the emulator's path); the encoding step itself is proved only at primitive level (C03), the traversal being reflection-driven. Trusted: govc, go/ssa, SMT solvers, the transcribed tables, aper.Marshal* assumed to return octets or an error.",
   "DESIGN.md §4 C13")
@@ -115,7 +115,7 @@ CLAIMED["C19"] = ("Proof (deductive, every fault position) of the error discipli
 CLAIMED["C01"] = ("Proof (deductive, every reply the AMF may send, every configuration) of the emulator's side of the exchange at driver level, over ghost logs written by the contracts of the callees: "
   "ManageNGSetup builds exactly one NGAP message, the NG SETUP REQUEST with the configured gNB id length; RegisterUE builds, in this order, INITIAL UE MESSAGE (RAN-UE-NGAP-ID of the UE), UPLINK NAS TRANSPORT x2, INITIAL CONTEXT SETUP RESPONSE, UPLINK NAS TRANSPORT, "
   "each with the AMF-UE-NGAP-ID taken from the AMF's reply and the UE's RAN-UE-NGAP-ID; the NAS messages are Registration Request, Authentication Response, Registration Request (for the container), Security Mode Complete, Registration Complete; "
-  "exactly two messages are security protected: Security Mode Complete with header type 4, new context, COUNT 0, and Registration Complete with header type 2, COUNT 1; the stored uplink COUNT ends at 2; a procedure leaves through ManageError (exit) only after a fault — the association failed, a consumed reply was undecodable or a message builder returned an error — so for an AMF that answers, the exchange runs to its end "
+  "exactly two messages are security protected: Security Mode Complete with header type 4, new context, COUNT 0, and Registration Complete with header type 2, COUNT 1; the stored uplink COUNT ends at 2; a procedure leaves through ManageError (exit) only after a fault — the association failed, a consumed reply was undecodable or a message builder returned an error — so for an AMF that answers, the exchange runs to its end; per MNC length (cases ids2 / ids3): the mobile identity of both Registration Requests is the null-scheme SUCI of the UE's SUPI, the serving network name handed to the key derivation is SNName(mcc, mnc) (the precondition of C05's contract, proved at its call site), and NG Setup announces the PLMN octets of the configured IMSI "
   "(EncodeNasPduWithSecurity proved against NASEncode's contract, C06). The pieces the statement composes are decided under their own properties: octets of each NGAP message (C13, C03), SUCI/PLMN (C11), RES* and keys (C05, C15), envelope and MAC (C06, C07).",
   "NOT decided: acceptance by a reference AMF as a whole conversation (no peer is run; kernel SCTP and a socket hook are not used by this technique), the contents of the NAS messages built by nasTestpacket (constructors are assumed: they record what they were asked to build), "
   "the decoded contents the driver reads from replies (ngap.Decoder is assumed to return a message or an error). Functional preconditions of callees are assumed at driver level (proved where the callee is claimed). Run-time panics end the procedure.",
@@ -125,7 +125,7 @@ CLAIMED["C02"] = ("Proof (deductive, every reply, every UE state, every UE count
   "the number of establishments is at most the number of registered UEs, the numbers of service requests and releases at most the number of establishments, the number of deregistrations at most the number of registered UEs "
   "(so no procedure is attempted for a UE whose prerequisite loop did not reach it), for counts larger than the number of UEs and for negative counts; stgutg.Min proved. "
   "(2) Each procedure (EstablishPDU, ServiceRequest, ReleasePDU, DeregisterUE) at driver level over ghost logs written by the contracts of the callees: exactly the NGAP messages of the procedure in order, each with the UE's own AMF-UE-NGAP-ID and RAN-UE-NGAP-ID; "
-  "one PDU session identity in 1..15 in the NAS request, the release complete and the NGAP response; every protected NAS message uses header type 2 and the stored uplink COUNT, which ends one higher; exit through ManageError only after a fault (EncodeNasPduWithSecurity proved against NASEncode's contract) — no COUNT is used twice before 2^24 messages. "
+  "one PDU session identity in 1..15 in the NAS request, the release complete and the NGAP response; every protected NAS message uses header type 2 and the stored uplink COUNT, which ends one higher; exit through ManageError only after a fault; the S-NSSAI handed to the establishment request and the release complete is the configured (sst, sd), the GTP address of the setup responses is the configured one, the deregistration request carries the SUCI of the UE's SUPI (cases ids2 / ids3) (EncodeNasPduWithSecurity proved against NASEncode's contract) — no COUNT is used twice before 2^24 messages. "
   "(3) Relational lemma: establishment, service request and release run one after the other on one UE use the same PDU session identity in all six places. "
   "The check also runs the contracts it composes: C06 (envelope, COUNT), C12 (UE address / TEID / UPF address extraction), C13 (NGAP builders and wire form).",
   "NOT decided: traffic mode of main() (blocks on a channel; XDP packages), acceptance by a reference AMF/SMF (no peer is run), NAS message contents (constructors assumed: they record what they were asked to build), that loop k of main passes element i (and not another element) is read off the index obligations only. "
